@@ -24,3 +24,4 @@ open XotModel.Props
 #print axioms C15_roundtrip
 #print axioms C15_roundtrip_text
 #print axioms C15_reachable_dedup
+#print axioms C15_reachable_dedup_full
